@@ -16,14 +16,9 @@ import IsoDT.Gen.Calendar
 namespace IsoDT.Model
 open IsoDT
 
-/-- The `Calendar.MODES` key the harness uses for each mode (`C15` shows the other spellings of
-    a mode produce the same record). -/
-def spellingOf : Mode → String
-  | .greg => "gregorian" | .d360 => "360day" | .d365 => "365day" | .d366 => "366day"
-
-/-- What `CALENDAR` holds after `set_mode(spellingOf m)`. -/
-def calOf (m : Mode) : Gen.CalRec :=
-  (Gen.calRecs.find? (fun r => r.spelling == spellingOf m)).getD default
+/-- What `CALENDAR` holds after `set_mode` with the mode's canonical spelling (`C15` shows the
+    other spellings of a mode produce the same record). -/
+def calOf (m : Mode) : Gen.CalRec := Gen.calOfMode m
 
 /-- `get_is_leap_year`: the last matching factor decides. Independent of the mode. -/
 def isLeapYear (y : Int) : Bool :=
@@ -166,30 +161,35 @@ def lexLt (a b : Int × Int × Int) : Bool :=
   a.1 < b.1 || (a.1 == b.1 && (a.2.1 < b.2.1 || (a.2.1 == b.2.1 && a.2.2 < b.2.2)))
 def lexLe (a b : Int × Int × Int) : Bool := !(lexLt b a)
 
+/-- Days from the ordinal day `so` of year `sy` to the ordinal day `od` of year `y`, as counted by
+    the three loops of `get_week_date_from_calendar_date` (start year, then the two following). -/
+def daysFromStart (m : Mode) (y od sy so : Int) : Option Int :=
+  if sy = y then some (od - so)
+  else if sy + 1 = y then some (daysInYear m sy - so + od)
+  else if sy + 2 = y then some (daysInYear m sy - so + daysInYear m (sy + 1) + od)
+  else none
+
+/-- The counting part of `get_week_date_from_calendar_date`, from week-year start `s` of
+    week-year `wy`. -/
+def weekFromCalAt (m : Mode) (y mo d : Int) (s : Int × Int × Int) (wy : Int) : Option (Int × Int × Int) :=
+  match posOf (indexed m (isLeapYear y)) mo d, posOf (indexed m (isLeapYear s.1)) s.2.1 s.2.2 with
+  | some od, some so =>
+    match daysFromStart m y od s.1 so with
+    | some t =>
+      if t < 0 then none
+      else some (wy, t / (calOf m).daysInWeek + 1, t % (calOf m).daysInWeek + 1)
+    | none => none
+  | _, _ => none
+
 /-- `get_week_date_from_calendar_date`. -/
 def weekFromCal (m : Mode) (y mo d : Int) : Option (Int × Int × Int) :=
   let prev := weekStartCal m (y - 1)
   let this := weekStartCal m y
   let next := weekStartCal m (y + 1)
   let date := (y, mo, d)
-  let sel : (Int × Int × Int) × Int :=
-    if lexLe prev date && lexLt date this then (prev, y - 1)
-    else if lexLe this date && lexLt date next then (this, y)
-    else (next, y + 1)
-  let s := sel.1
-  match posOf (indexed m (isLeapYear y)) mo d, posOf (indexed m (isLeapYear s.1)) s.2.1 s.2.2 with
-  | some od, some so =>
-    let t : Option Int :=
-      if s.1 = y then some (od - so)
-      else if s.1 + 1 = y then some (daysInYear m s.1 - so + od)
-      else if s.1 + 2 = y then some (daysInYear m s.1 - so + daysInYear m (s.1 + 1) + od)
-      else none
-    match t with
-    | some t =>
-      if t < 0 then none
-      else some (sel.2, t / (calOf m).daysInWeek + 1, t % (calOf m).daysInWeek + 1)
-    | none => none
-  | _, _ => none
+  if lexLe prev date && lexLt date this then weekFromCalAt m y mo d prev (y - 1)
+  else if lexLe this date && lexLt date next then weekFromCalAt m y mo d this y
+  else weekFromCalAt m y mo d next (y + 1)
 
 /-- `get_ordinal_date_from_week_date`. -/
 def ordFromWeek (m : Mode) (y w d : Int) : Option (Int × Int) :=
@@ -202,5 +202,21 @@ def weekFromOrd (m : Mode) (y doy : Int) : Option (Int × Int × Int) :=
   match calFromOrd m y doy with
   | some (cy, cmo, cd) => weekFromCal m cy cmo cd
   | none => none
+
+/-- `TimePoint.get_calendar_date` / `get_ordinal_date` / `get_week_date` on a date kept in any of
+    the three representations: re-express `dt` in representation `k` (0 calendar, 1 ordinal,
+    2 week). -/
+def convert (m : Mode) (k : Nat) (dt : Spec.Date) : Option Spec.Date :=
+  match k, dt with
+  | 0, .cal y mo d => some (.cal y mo d)
+  | 0, .ord y doy => (calFromOrd m y doy).map fun r => .cal r.1 r.2.1 r.2.2
+  | 0, .week y w d => (calFromWeek m y w d).map fun r => .cal r.1 r.2.1 r.2.2
+  | 1, .cal y mo d => (ordFromCal m y mo d).map fun r => .ord r.1 r.2
+  | 1, .ord y doy => some (.ord y doy)
+  | 1, .week y w d => (ordFromWeek m y w d).map fun r => .ord r.1 r.2
+  | 2, .cal y mo d => (weekFromCal m y mo d).map fun r => .week r.1 r.2.1 r.2.2
+  | 2, .ord y doy => (weekFromOrd m y doy).map fun r => .week r.1 r.2.1 r.2.2
+  | 2, .week y w d => some (.week y w d)
+  | _, _ => none
 
 end IsoDT.Model
